@@ -43,10 +43,13 @@ class SoupCodec:
             return 0
         if isinstance(msg, soup.LoginRejected):
             return REJECT_N
-        if isinstance(msg, soup.Debug):
-            return int(msg.msg)
-        if isinstance(msg, (soup.SequencedData, soup.UnSequencedData)):
-            return int(bytes(msg.data))
+        try:
+            if isinstance(msg, soup.Debug):
+                return int(msg.msg)
+            if isinstance(msg, (soup.SequencedData, soup.UnSequencedData)):
+                return int(bytes(msg.data))
+        except ValueError:
+            return -2          # a message that was never sent (mis-framed bytes)
         return -1
 
 
@@ -215,7 +218,27 @@ class Scenario:
         on_close = self._mk_on_close(holder) if cfg['has_cb'] else None
         ci, si = self.hb
         if cfg['kind'] == 'soup-client':
-            s = soup.SoupClientSession(on_msg_coro=on_msg, on_close_coro=on_close,
+            rec, codec = self.rec, self.codec
+
+            class Client(soup.SoupClientSession):
+                """observation only: which message `login()` consumed as its reply"""
+                in_login = False
+
+                async def login(self, msg):
+                    Client.in_login = True
+                    try:
+                        return await super().login(msg)
+                    finally:
+                        Client.in_login = False
+
+                async def receive_msg(self):
+                    was_login = Client.in_login
+                    m = await super().receive_msg()
+                    if was_login:
+                        Client.in_login = False
+                        rec.obs.append(['loginReply', codec.number(m)])
+                    return m
+            s = Client(on_msg_coro=on_msg, on_close_coro=on_close,
                                        client_heartbeat_interval=ci, server_heartbeat_interval=si,
                                        dispatch_on_connect=cfg.get('dispatch_on_connect', False))
         else:
